@@ -101,6 +101,13 @@ let handle (toks : String.t list) : String.t =
      | Err e -> "err " ^ err_name e
      | Ok None -> "ok none"
      | Ok (Some ls) -> "ok " ^ (if ls = [] then "-" else String.concat "," (List.map show_leaf ls)))
+  | "hm_visits" :: n :: rest ->
+    let (ns, args) = parse_dag rest in
+    let trees = tree_of_dag ns in
+    let Cell (ty, bits, refs) = trees.(Array.length trees - 1) in
+    (match parse_edge_c parse_fuel ty { s_bits = bits; s_refs = refs } (z_of_int (int_of_string n)) [] with
+     | Err e -> "err " ^ err_name e
+     | Ok (ls, (v, z)) -> Printf.sprintf "ok %d %d %d" (List.length ls) (int_of_nat v) (int_of_nat z))
   | "hm_parse_aug" :: n :: ylen :: rest ->
     let (ns, args) = parse_dag rest in
     let trees = tree_of_dag ns in
